@@ -40,8 +40,8 @@ def parse_opts(s):
             opts['skip'] += w[len('skip='):].split(',')
         elif w.startswith('opaque='):
             opts['opaque_macros'] += w[len('opaque='):].split(',')
-        elif w == 'R29map':
-            opts['rules'].append('R29map')
+        elif w in ('R29map', 'R29res'):
+            opts['rules'].append(w)
         elif re.match(r'^R\d+$', w):
             opts['rules'].append(w)
         elif w.startswith('drain='):
@@ -318,7 +318,29 @@ def detect_renames(golden_lines, current_lines):
                 pass
         return out
     gid, cid = idents(golden_lines), idents(current_lines)
-    return {a: next(iter(bs)) for a, bs in cand.items() if len(bs) == 1 and next(iter(bs)) not in gid and a not in cid}
+    gtext = '\n'.join(golden_lines)
+
+    def is_local(name):
+        # the old name must be *bound* in the golden text: `let [mut] x`, `for x in`, `for (.., x, ..) in`, a parameter `x:` or a closure parameter `|x|`
+        n = re.escape(name)
+        return bool(re.search(r'\blet\s+(?:mut\s+)?%s\b' % n, gtext) or re.search(r'\blet\s+\(?[^=;]*\b%s\b[^=;]*=' % n, gtext)
+                    or re.search(r'\bfor\s+\(?[^{;]*\b%s\b[^{;]*\bin\b' % n, gtext)
+                    or re.search(r'[(,]\s*(?:mut\s+)?%s\s*:' % n, gtext) or re.search(r'\|[^|]*\b%s\b[^|]*\|' % n, gtext))
+    KEYWORDS = {'true', 'false', 'self', 'Self', 'super', 'crate', 'mut', 'ref', 'move', 'let', 'if', 'else', 'match', 'for', 'while', 'loop',
+                'in', 'return', 'break', 'continue', 'fn', 'pub', 'as', 'dyn', 'impl', 'where', 'Some', 'None', 'Ok', 'Err'}
+    out = {}
+    for a, bs in cand.items():
+        b = next(iter(bs))
+        if len(bs) == 1 and b not in gid and a not in cid and a not in KEYWORDS and b not in KEYWORDS and a[:1].islower() and b[:1].islower() and is_local(a):
+            out[a] = b
+    # rule R13 names the ghost iterator of `for x in ..` after x: it follows the rename of x
+    for a, b in list(out.items()):
+        ia = [k for k in cand if re.match(r'^it_%s\d*$' % re.escape(a), k)]
+        for k in ia:
+            bs = cand[k]
+            if len(bs) == 1 and k not in cid:
+                out[k] = next(iter(bs))
+    return out
 
 
 def apply_renames(text, renames):
